@@ -93,6 +93,7 @@ def run(check, prog):
     payload(check, prog)
     minimiser_internals(check, prog)
     limit_sides(check, prog)
+    probe_inside_limit(check, prog)
     flat_index_roundtrip(check, prog)
     # bounds are inclusive on both sides of the hand-off: the optimiser's limits
     # table and the prior's own support predicate (rule shared with C14)
@@ -1623,6 +1624,53 @@ def flat_index_roundtrip(check, prog):
                   'axes are the stored dimensions with the stand-in %r renamed, the '
                   'other coordinates are kept' % standin,
                   loc, fail_detail=detail)
+
+
+def probe_inside_limit(check, prog):
+    """L12f: the one-sided difference step of mpfit's Jacobian is taken *inwards*
+    from an upper limit.  fdjac2 evaluates the model at x + h; for a parameter with
+    an upper limit the sign of h is reversed whenever that point would lie beyond
+    it, i.e. exactly when x + h > ulimit.  (A test of x alone reverses the step
+    only for a parameter already beyond its bound: one sitting on it -- a guess on
+    the prior's edge, a step clipped onto the limit -- is probed outside the
+    prior's support, the prior residual is infinite and the fit ends in NaN.)"""
+    Q = 'holopy.inference.third_party.nmpfit.mpfit.fdjac2'
+    try:
+        fd = prog.func(Q)
+    except (KeyError, AnalysisError):
+        return
+    loc = prog.loc(Q, fd)
+    cands = []
+    for node in ast.walk(fd):
+        if isinstance(node, ast.Assign) and len(node.targets) == 1 and \
+                isinstance(node.targets[0], ast.Name) and node.targets[0].id == 'mask':
+            for c in ast.walk(node.value):
+                if isinstance(c, ast.Compare) and len(c.ops) == 1 and \
+                        isinstance(c.ops[0], (ast.Gt, ast.GtE, ast.Lt, ast.LtE)):
+                    names = {n.id for n in ast.walk(c) if isinstance(n, ast.Name)}
+                    if 'ulimit' in names:
+                        cands.append(c)
+    check.need('step-reversal test against the upper limit in fdjac2', len(cands), 1,
+               'L12-probe-inside-limit', 'mpfit.fdjac2',
+               'the step is reversed at an upper limit', loc)
+    from hpstatic.poly import Canon
+    from hpstatic.interp import expr_term
+    env = {n: sym(n) for n in ('x', 'h', 'ulimit')}
+    c0 = Canon()
+    want = expr_term(prog, 'x + h - ulimit', env)
+    for c in cands:
+        a = expr_term(prog, ast.unparse(c.left), env)
+        b = expr_term(prog, ast.unparse(c.comparators[0]), env)
+        if isinstance(c.ops[0], (ast.Lt, ast.LtE)):
+            a, b = b, a
+        ok = c0.equal(intern(('bin', '-', a, b)), want)
+        check.require(ok, 'L12-probe-inside-limit', 'mpfit.fdjac2 line %d' % c.lineno,
+                      'reversed exactly when x + h lies beyond the upper limit',
+                      '%s:%d' % (loc.rpartition(':')[0], c.lineno),
+                      fail_detail='the test is `%s`: a parameter on its upper limit is '
+                      'probed at x + h, outside the prior (guess on the edge of a '
+                      'Uniform: infinite prior residual, NaN parameters, the fit '
+                      'raises)' % ast.unparse(c))
 
 
 def limit_sides(check, prog):
